@@ -81,6 +81,14 @@ register_key_set()
 register_algorithms()
 
 
+def _refuse_unencoded_payload(protected: Any) -> None:
+    # the functions of this module build the signing input from BASE64URL(payload);
+    # an integrity protected ``"b64": false`` (RFC 7797) is the business of
+    # ``joserfc.rfc7797``, also when the registry at hand knows the parameter
+    if protected and protected.get("b64") is False:
+        raise ValueError('Use joserfc.rfc7797 for a JWS with "b64": false')
+
+
 def serialize_compact(
         protected: Header,
         payload: bytes | str,
@@ -108,6 +116,7 @@ def serialize_compact(
         registry = construct_registry(algorithms)
 
     registry.check_header(protected)
+    _refuse_unencoded_payload(protected)
     obj = CompactSignature(protected, to_bytes(payload))
     alg: JWSAlgModel = registry.get_alg(protected["alg"])
     key: Key = guess_key(private_key, obj, True)
@@ -136,6 +145,7 @@ def validate_compact(
 
     headers = obj.headers()
     registry.check_header(headers)
+    _refuse_unencoded_payload(obj.protected)
     key: Key = guess_key(public_key, obj)
     key.check_use("sig")
     alg: JWSAlgModel = registry.get_alg(headers["alg"])
@@ -228,6 +238,7 @@ def serialize_json(
         registry = construct_registry(algorithms)
 
     def find_key(obj: Any) -> Key:
+        _refuse_unencoded_payload(obj.protected)
         return guess_key(private_key, obj, True)
 
     _payload = to_bytes(payload)
@@ -272,6 +283,7 @@ def deserialize_json(
         registry = construct_registry(algorithms)
 
     def find_key(obj: Any) -> Key:
+        _refuse_unencoded_payload(obj.protected)
         return guess_key(public_key, obj)
 
     if "signatures" in value:
